@@ -31,6 +31,41 @@ def ref_order(ver):
     return order if sorted(order) == sorted(V["order"]) else None
 
 
+def check_single(ctx, ver, pfx, a, s, orders):
+    """the single-object clauses of the statement; returns the object (or None if rejected)"""
+    o, e = obs.construct(ver, s, warm=True)
+    rp = {"kind": "single", "ver": ver, "s": s, "assignment": a, "prefix": pfx}
+    if o is None:
+        ctx.violation("v%s:valid-vector-rejected" % ver, "accepted vector rejected", s, "accepted", e, replay=rp)
+        return None
+    d = defined(ver, a)
+    want_body = "/".join("%s:%s" % (m, d[m]) for m in orders[ver] if m in d)
+    try:
+        c = o.clean_vector()
+        cn = c if ver == "2" else o.clean_vector(output_prefix=False)
+    except Exception as ex:  # noqa
+        ctx.violation("v%s:clean-raised" % ver, "clean_vector() raised", s, None, repr(ex), replay=rp)
+        return o
+    if c != pfx + want_body:
+        ctx.violation("v%s:clean-not-canonical" % ver, "clean_vector() is not prefix + the defined metrics, once each, in the fixed order",
+                      s, pfx + want_body, c, replay=rp)
+    if cn != want_body:
+        ctx.violation("v%s:clean-noprefix" % ver, "clean_vector(output_prefix=False) is not the clean vector without prefix",
+                      s, want_body, cn, replay=rp)
+    o2, e2 = obs.construct(ver, c, warm=True)
+    if o2 is None:
+        ctx.violation("v%s:clean-does-not-reparse" % ver, "re-parsing the clean vector fails", s, "accepted", e2, replay=rp)
+    else:
+        try:
+            if not (o2 == o and o == o2) or o2.scores() != o.scores() or o2.clean_vector() != c or hash(o2) != hash(o) \
+                    or o2.severities() != o.severities():
+                ctx.violation("v%s:clean-roundtrip" % ver, "re-parsing the clean vector does not yield an equal object with the same scores/clean vector",
+                              s, (o.scores(), c), (o2.scores(), o2.clean_vector(), o2 == o), replay=rp)
+        except Exception as ex:  # noqa
+            ctx.violation("v%s:roundtrip-raised" % ver, "accessor raised on the re-parsed object", s, None, repr(ex), replay=rp)
+    return o
+
+
 def run(ctx):
     rng = ctx.rng
     objs = []
@@ -55,37 +90,9 @@ def run(ctx):
     built = []
     for ver, pfx, a, s in objs:
         ctx.nontrivial((ver, s))
-        o, e = obs.construct(ver, s, warm=True)
-        rp = {"kind": "single", "ver": ver, "s": s, "assignment": a, "prefix": pfx}
-        if o is None:
-            ctx.violation("v%s:valid-vector-rejected" % ver, "accepted vector rejected", s, "accepted", e, replay=rp)
-            continue
-        built.append((ver, pfx, a, s, o))
-        d = defined(ver, a)
-        want_body = "/".join("%s:%s" % (m, d[m]) for m in orders[ver] if m in d)
-        try:
-            c = o.clean_vector()
-            cn = c if ver == "2" else o.clean_vector(output_prefix=False)
-        except Exception as ex:  # noqa
-            ctx.violation("v%s:clean-raised" % ver, "clean_vector() raised", s, None, repr(ex), replay=rp)
-            continue
-        if c != pfx + want_body:
-            ctx.violation("v%s:clean-not-canonical" % ver, "clean_vector() is not prefix + the defined metrics, once each, in the fixed order",
-                          s, pfx + want_body, c, replay=rp)
-        if cn != want_body:
-            ctx.violation("v%s:clean-noprefix" % ver, "clean_vector(output_prefix=False) is not the clean vector without prefix",
-                          s, want_body, cn, replay=rp)
-        o2, e2 = obs.construct(ver, c, warm=True)
-        if o2 is None:
-            ctx.violation("v%s:clean-does-not-reparse" % ver, "re-parsing the clean vector fails", s, "accepted", e2, replay=rp)
-        else:
-            try:
-                if not (o2 == o and o == o2) or o2.scores() != o.scores() or o2.clean_vector() != c or hash(o2) != hash(o) \
-                        or o2.severities() != o.severities():
-                    ctx.violation("v%s:clean-roundtrip" % ver, "re-parsing the clean vector does not yield an equal object with the same scores/clean vector",
-                                  s, (o.scores(), c), (o2.scores(), o2.clean_vector(), o2 == o), replay=rp)
-            except Exception as ex:  # noqa
-                ctx.violation("v%s:roundtrip-raised" % ver, "accessor raised on the re-parsed object", s, None, repr(ex), replay=rp)
+        o = check_single(ctx, ver, pfx, a, s, orders)
+        if o is not None:
+            built.append((ver, pfx, a, s, o))
     # pairs
     pairs = []
     nb = len(built)
@@ -173,24 +180,36 @@ def run(ctx):
                 ctx.violation("eq-foreign-raised", "== with a foreign value raised", [s, repr(other)], None, repr(ex))
 
 
+class _Collect:
+    def __init__(self):
+        self.v = []
+
+    def violation(self, sig, what, *a, **k):
+        self.v.append(sig)
+
+    def nontrivial(self, *a):
+        pass
+
+
 def replay(data):
     r = data["replay"]
+    c = _Collect()
     if r["kind"] == "pair":
         (va, a), (vb, b) = r["a"], r["b"]
         oa, _ = obs.construct(va, a, warm=True)
         ob, _ = obs.construct(vb, b, warm=True)
         if oa is None or ob is None:
             return False, "rejected"
-        msg = "a=%s(%r) b=%s(%r): a==b %s, hash equal %s, clean %r / %r; expected %r" % (
-            va, a, vb, b, oa == ob, hash(oa) == hash(ob), oa.clean_vector(), ob.clean_vector(), data.get("expected"))
         exp = data.get("expected")
-        ok = (oa == ob) == exp if isinstance(exp, bool) else False
+        msg = "a=%s(%r) b=%s(%r): a==b %s, hash equal %s, clean %r / %r; expected equal=%r" % (
+            va, a, vb, b, oa == ob, hash(oa) == hash(ob), oa.clean_vector(), ob.clean_vector(), exp)
+        if isinstance(exp, bool):
+            ok = (oa == ob) == exp and (ob == oa) == exp and (not exp or hash(oa) == hash(ob)) and ((ob in {oa}) == exp)
+        else:
+            ok = True
         return ok, msg
-    ver, s = r["ver"], r["s"]
-    o, e = obs.construct(ver, s, warm=True)
-    if o is None:
-        return False, "CVSS%s(%r) rejected: %s" % (ver, s, e)
-    c = o.clean_vector()
-    o2, e2 = obs.construct(ver, c, warm=True)
-    ok = c == data.get("expected") if isinstance(data.get("expected"), str) else (o2 is not None and o2 == o and o2.scores() == o.scores())
-    return ok, "CVSS%s(%r).clean_vector()=%r; re-parse %s" % (ver, s, c, "ok" if o2 is not None else e2)
+    orders = {v: ref_order(v) for v in "234"}
+    check_single(c, r["ver"], r["prefix"], r["assignment"], r["s"], orders)
+    sig = data.get("signature")
+    ok = (sig not in c.v) if sig else not c.v
+    return ok, "CVSS%s(%r): failing clauses now: %r" % (r["ver"], r["s"], c.v)
